@@ -5,6 +5,20 @@ import json
 import vlib
 from vlib import cz, cn, clist, cbool
 
+def canon_key(k):
+    """subclass-instance key forms denote the location of the plain key"""
+    if isinstance(k, str) and k.startswith("\x01strsub:"):
+        return k[len("\x01strsub:"):]
+    if isinstance(k, str) and k.startswith("\x01intsub:"):
+        return int(k[len("\x01intsub:"):])
+    return k
+
+
+def flat(p):
+    """[label, [kind, key], ...] -> [label, key, ...] as the runner reports locations"""
+    return [p[0]] + [canon_key(s[1]) for s in p[1:]]
+
+
 # ------------------------------------------------------------------ stores
 # keys of dict containers beyond plain identifiers.  "strings": characters that need escaping in the
 # printed form of a reference (dump(), mk_fun source); "exotic": key TYPES (negative/big ints, floats, tuples,
@@ -95,9 +109,13 @@ def make_store(rng, nested=True, attrdict=False, keys=None, values="int"):
     # access) or Manager.newenv (DepEnv proxy); only dict containers can take the last two
     spec = [["c", {"kind": "dict", "items": c_items, "root": rng.choice(["ref", "ref", "refattr", "env"])}],
             ["g", {"kind": "attrdict" if attrdict else "obj", "items": leafs("qr")}],
-            ["f", {"kind": "dict", "items": [["sum", "FunSum"]], "root": rng.choice(["ref", "ref", "refattr"])}]]
+            ["f", {"kind": "dict", "items": [["sum", "FunSum"], ["sum2", "FunSum2"]], "root": rng.choice(["ref", "ref", "refattr"])}
+                  if rng.random() < 0.6 else {"kind": "obj", "items": [["sum", "FunSum"], ["sum2", "FunSum2"]]}]]
     leaves += [["g", ["a", "q"]], ["g", ["a", "r"]]]
     return spec, leaves, conts
+
+
+FSTEP = ["i"]        # how the function container of the current history is accessed: item (dict) or attribute (object)
 
 
 def gen_expr(rng, pool, conts, depth=0):
@@ -105,7 +123,7 @@ def gen_expr(rng, pool, conts, depth=0):
     (already filtered by the caller)"""
     k = rng.random()
     if conts and k < 0.12 and depth == 0:
-        return ["callsum", ["f", ["i", "sum"]], rng.choice(conts)]
+        return ["callsum", ["f", [FSTEP[0], "sum"]], rng.choice(conts)]
     if k < 0.35 or depth >= 2:
         return ["ref", rng.choice(pool)]
     if k < 0.42:         # an attribute of an expression's value: an AttrRef whose owner is an expression node
@@ -117,6 +135,15 @@ def gen_expr(rng, pool, conts, depth=0):
             a, b = b, a
         return ["bin", rng.choice("+-*"), a, b]
     return ["bin", rng.choice("+-*"), gen_expr(rng, pool, conts, depth + 1), gen_expr(rng, pool, conts, depth + 1)]
+
+
+def sum2_expr(rng, t, pool, conts2):
+    """f.sum2(c) for a container c whose first two members may be read by t's definition (in the pool, not t itself)"""
+    ok = [c for c, ms in conts2 if all(m in pool and m != t for m in ms)]
+    if not ok:
+        return None
+    e = ["callsum2", ["f", [FSTEP[0], "sum2"]], rng.choice(ok)]
+    return e if rng.random() < 0.5 else ["bin", "+", e, ["const", rng.randint(1, 3)]]
 
 
 FAULT_KINDS = ["Fault"] * 6 + ["StopIteration", "StopIteration", "KeyError", "ValueError", "AttributeError", "TypeError",
@@ -132,6 +159,25 @@ def gen_history(rng, profile="mixed", nops=None, nofun=False, attrdict=False, ke
         keys = "strings" if rng.random() < 0.25 else None
     nested = profile not in ("flat", "assign_flat") and not (profile == "windows" and rng.random() < 0.5)
     spec, leaves, conts = make_store(rng, nested, attrdict, keys, values)
+    FSTEP[0] = "a" if [n for l, n in spec if l == "f"][0]["kind"] == "obj" else "i"
+    # containers whose first two members are leaves: f.sum2(container) reads only those two, so the container may hold the
+    # target of the definition itself (an ANCESTOR of the target is read as one value)
+    conts2 = []
+
+    def walk2(node, pre):
+        its = node["items"]
+        stp = "i" if node["kind"] in ("dict", "list", "userdict") else "a"
+        # all members leaves: whichever function object sits at the called location, the call evaluates
+        if len(its) >= 3 and all(not isinstance(v, dict) and v not in ("FunSum", "FunSum2") for _, v in its):
+            conts2.append((pre, [pre + [[stp, its[0][0]]], pre + [[stp, its[1][0]]]]))
+        for k, v in its:
+            if isinstance(v, dict):
+                walk2(v, pre + [[stp, k]])
+    for label, node in spec:
+        if label == "c":
+            for k, v in node["items"]:
+                if isinstance(v, dict):
+                    walk2(v, [label, ["i", k]])
     rank = list(leaves)
     rng.shuffle(rank)
     hot = rank[:3]            # "windows": a few low-ranked locations that are assigned again and again
@@ -153,6 +199,12 @@ def gen_history(rng, profile="mixed", nops=None, nofun=False, attrdict=False, ke
             else:
                 frozen = not frozen
                 ops.append(["freeze"] if frozen else ["unfreeze"])
+            continue
+        if rng.random() < 0.03 and profile not in ("flat", "assign_flat", "fault"):
+            # another function object is put at a function location: every definition calling it is re-evaluated
+            # (only the location "sum": its callers never read a container that holds their own target, whichever function
+            # sits there; putting the full sum at "sum2" could turn a definition into one that reads its own target)
+            ops.append(["set", ["f", [FSTEP[0], "sum"]], ["plain", rng.choice(["FunSum", "FunSum2"])]])
             continue
         if profile == "windows" and rng.random() < 0.35:
             ops.append(["set", rng.choice(hot), ["plain", gen_value(rng, values)]])
@@ -177,7 +229,9 @@ def gen_history(rng, profile="mixed", nops=None, nofun=False, attrdict=False, ke
             if k < 0.42:
                 ops.append(["set", t, ["plain", gen_value(rng, values)]])
             elif k < 0.86 and pool:
-                ops.append(["set", t, ["expr", gen_expr(rng, pool, okc)]])
+                e = gen_expr(rng, pool, okc)
+                e2 = sum2_expr(rng, t, pool, conts2)
+                ops.append(["set", t, ["expr", e2 if e2 and rng.random() < 0.15 else e]])
             elif k < 0.95:
                 ops.append(["inplace", t, rng.choice("+-*"), rng.randint(-3, 3)])       # literal operands stay ints (how literals print is C11's subject)
             else:
@@ -186,7 +240,9 @@ def gen_history(rng, profile="mixed", nops=None, nofun=False, attrdict=False, ke
         if k < 0.36:
             ops.append(["set", t, ["plain", gen_value(rng, values)]])
         elif k < 0.72 and pool:
-            ops.append(["set", t, ["expr", gen_expr(rng, pool, okc if nested else [])]])
+            e = gen_expr(rng, pool, okc if nested else [])
+            e2 = sum2_expr(rng, t, pool, conts2)
+            ops.append(["set", t, ["expr", e2 if e2 and rng.random() < 0.12 else e]])
         elif k < 0.80:
             ops.append(["inplace", t, rng.choice("+-*"), rng.randint(-3, 3)])       # literal operands stay ints (how literals print is C11's subject)
         elif k < 0.86:
@@ -197,6 +253,10 @@ def gen_history(rng, profile="mixed", nops=None, nofun=False, attrdict=False, ke
             # the task id is a name or the (first) target itself - only when that location never identified a task before
             # (registering a second task under a live id is a misuse outside every property)
             fid = f"fn{funs}" if rng.random() < 0.6 or used_id(t) else {"ref": t}
+            if isinstance(fid, str) and rng.random() < 0.25:
+                # a STRING task id that reads exactly like the printed form of a reference (its own target or any other
+                # location, which may identify another task): strings and references are different task ids
+                fid = "str%d:" % funs + json.dumps(rng.choice([t, rng.choice(leaves)]))
             tgs = [t]
             if rng.random() < 0.4:                                        # a second target
                 above = [p for p in leaves if pos[json.dumps(p)] > pos[json.dumps(srcs[0])] and p != t]
@@ -232,6 +292,20 @@ def gen_history(rng, profile="mixed", nops=None, nofun=False, attrdict=False, ke
     for op in ops:
         if op[0] == "set" and len(op) == 3:
             op.append(rng.choice(ROUTES))          # the route is part of the case (replayable); the model ignores it
+    if keys != "exotic" and rng.random() < 0.2:
+        # key FORMS: the same location addressed through a plain str / int key in one operation and through an instance of
+        # a str / int subclass without a repr of its own in another (equal, same hash, same printed form: the same location)
+        def forms(x):
+            if isinstance(x, list):
+                if len(x) == 2 and x[0] == "i" and not isinstance(x[1], (list, dict)) and rng.random() < 0.4:
+                    k = x[1]
+                    if isinstance(k, str) and not k.startswith(("\x01", "\x02")):
+                        return ["i", "\x01strsub:" + k]
+                    if isinstance(k, int) and not isinstance(k, bool):
+                        return ["i", "\x01intsub:%d" % k]
+                return [forms(y) for y in x]
+            return x
+        ops = [[op[0]] + [forms(a) for a in op[1:]] for op in ops]
     return {"store": spec, "ops": ops}
 
 
@@ -272,7 +346,7 @@ class Emit:
         self.N = vlib.Interner()
 
     def key(self, k):
-        return self.N(("k", k))
+        return self.N(("k", canon_key(k)))      # a subclass instance denotes the same location as the plain key
 
     def path(self, p):
         if p and p[0] == "$task":
@@ -291,7 +365,9 @@ class Emit:
         if isinstance(spec, int):
             return f"(Leaf {cz(spec)})"
         if spec == "FunSum":
-            return "FunSum"
+            return "(Fun false)"
+        if spec == "FunSum2":
+            return "(Fun true)"
         return "(Dict " + clist([f"({cn(self.key(k))}, {self.node(v)})" for k, v in spec["items"]]) + ")"
 
     def store(self, spec):
@@ -308,6 +384,8 @@ class Emit:
             return f"(EBin {o} {self.expr(e[2])} {self.expr(e[3])})"
         if k == "callsum":
             return f"(ECallSum {self.path(e[1])} {self.path(e[2])})"
+        if k == "callsum2":          # which function is called is decided by what the store holds at e[1]
+            return f"(ECallSum {self.path(e[1])} {self.path(e[2])})"
         if k == "proj":
             pk = {"real": "PReal", "imag": "PImag", "numerator": "PNum", "denominator": "PDen"}[e[1]]
             return f"(EProj {pk} {self.expr(e[2])})"
@@ -321,11 +399,12 @@ class Emit:
 
     def op(self, op, obs):
         k = op[0]
-        flat = lambda p: [p[0]] + [s[1] for s in p[1:]]
         if k == "set":
             r = flat(op[1])
             sd = self.paths(obs.get("sd_order", []))
             so = self.paths(obs.get("start_order", []))
+            if op[2][0] == "plain" and op[2][1] in ("FunSum", "FunSum2"):
+                return f"MSet {self.path(op[1])} (SPlain (Fun {'true' if op[2][1] == 'FunSum2' else 'false'})) {sd} {so}"
             if op[2][0] == "plain":
                 return f"MSet {self.path(op[1])} (SPlain (Leaf {cz(op[2][1])})) {sd} {so}"
             dord, tord = self.task_orders(obs, r)
@@ -359,7 +438,8 @@ class Emit:
                 ts.append(f"(mkTask {self.path(p)} {self.paths(tord)} {self.paths(dord)} (AExpr {self.expr(e)}))")
             return f"MLoad {clist(ts)} {cbool(op[2])}"
         if k == "genfun":
-            args = clist([f"({self.path(p)}, Leaf {cz(v)})" for p, v in zip(op[1], op[2])])
+            val = lambda v: "Fun false" if v == "FunSum" else "Fun true" if v == "FunSum2" else f"Leaf {cz(v)}"
+            args = clist([f"({self.path(p)}, {val(v)})" for p, v in zip(op[1], op[2])])
             return f"MGenFun {args} {self.paths(obs.get('sd_order', []))} {self.paths(obs.get('start_order', []))}"
         if k == "arm":
             return f"MArmFault {int(op[1])}%nat"
@@ -374,6 +454,8 @@ class Emit:
         for p, v in obs["store"]:
             if v == "FunSum":
                 st.append(f"({self.path(p)}, LFun)")
+            elif v == "FunSum2":
+                st.append(f"({self.path(p)}, LFun2)")
             elif isinstance(v, int):
                 st.append(f"({self.path(p)}, LZ {cz(v)})")
             else:
@@ -508,7 +590,7 @@ def leaves_of(case):
             step = ["i", k] if spec["kind"] in ("dict", "list", "userdict") else ["a", k]     # obj / attrdict / slots: attribute steps
             if isinstance(v, dict):
                 walk(v, pre + [step], v["kind"])
-            elif v != "FunSum":
+            elif v not in ("FunSum", "FunSum2"):
                 out.append(pre + [step])
     for label, node in case["store"]:
         walk(node, [label], node["kind"])
